@@ -475,7 +475,15 @@ func oracleC09(x *Exec, r *StepRec) {
 		qc, ok := post.Ctx[id]
 		origin := map[string]string{"context_origin": x.ctxOrigin(id)}
 		if !ok {
-			continue // when a context's record is removed is C16's business, not a lifecycle transition
+			// when exactly a finished context's record is removed is C16's business; but only a finished context may
+			// go: a one-shot that had its batch, a repeated one whose total is reached, or a killed one
+			finished := (!pc.Repeated && pc.BatchCounter >= 1) || pc.State == types.COMPLETED ||
+				(pc.Repeated && pc.RepeatedTotal > 0 && int64(pc.BatchCounter) >= pc.RepeatedTotal)
+			if !finished && origin["context_origin"] != "modsvc" && r.Kind != "export" {
+				x.viol("C09", "removed_while_unfinished", fmt.Sprintf("%s at height %d: context %s removed in state %s with batch %d of total %d (repeated=%v): neither finished nor killed", describeStep(r), post.Height, id[:12], pc.State, pc.BatchCounter, pc.RepeatedTotal, pc.Repeated), origin)
+				return
+			}
+			continue
 		}
 		if pc.ServiceName != qc.ServiceName || !bytes.Equal(pc.Consumer, qc.Consumer) || pc.Input != qc.Input ||
 			pc.SuperMode != qc.SuperMode || pc.Repeated != qc.Repeated || pc.ModuleName != qc.ModuleName {
